@@ -160,6 +160,20 @@ QUERIES = ["A[] not deadlock", "E<> P.A && i == 1", "A<> P.B", "E[] x <= 3", "P.
            "Pr[<=10](<> P.A) under S >= Pr[<=10](<> P.B)", "Pr(P.A /\\ P.B \\/ P.A)", "A[] P.A and A<> P.B", "A[] (P.A and A<> P.B)", "E<> U.l + W + R + E + M + sup + inf + bounds > 0", ""]
 
 
+def accepted_models():
+    """models built from the zoo that the library accepts (no diagnostics): input for the printers and the XML writer (C20)"""
+    decl = "\n".join(l for l in DECLS.replace("const scalar[2] csc;", "scalar[2] csc;").split("\n") if not l.startswith("int cls(double a)"))
+    t1 = {"name": "T1", "locations": [{"id": "id0", "name": "Idle"}], "init": "id0", "edges": []}
+    rich = {"name": "P", "params": "const id_t id, int &r, clock &z, chan &cc", "decl": "int l; clock w;\nvoid upd() { l = 1; if (l > 0) return; l = 2; }",
+            "locations": [{"id": "id0", "name": "A", "inv": "x <= 5"}, {"id": "id1", "name": "B", "inv": "x <= 3", "rate": "2"}, {"id": "id2", "name": "C", "committed": True}, {"id": "id3", "urgent": True}],
+            "branchpoints": [{"id": "id4"}], "init": "id0",
+            "edges": [{"src": "id0", "dst": "id1", "select": "k : id_t, m : int[0,1]", "guard": "i < 2 && x >= 1", "sync": "c0!", "assign": "i = k, upd()"},
+                      {"src": "id1", "dst": "id4", "controllable": False}, {"src": "id4", "dst": "id0", "prob": "2"}, {"src": "id4", "dst": "id3", "prob": "N", "assign": "i++"},
+                      {"src": "id3", "dst": "id2", "sync": "cb[id]!"}, {"src": "id2", "dst": "id0", "sync": "cc?", "assign": "x = 0"}]}
+    return [("zoo-declarations", {"decl": decl, "templates": [t1], "system": "system T1;"}),
+            ("zoo-template", {"decl": decl, "templates": [rich, t1], "system": "P1 = P(0, i, x, c0);\nP2(const id_t a) = P(a, j, y, c0);\nsystem P1, P2 < T1;\nprogress { i; i > 0 : j; }\ngantt { G0 : i == 1 -> 2; G1(k : id_t) : i == k -> k; }"})]
+
+
 def corpus():
     """-> list of dicts {id, start, entry (model_run job fields), syntax, text}"""
     out = []
